@@ -137,6 +137,13 @@ void m(int a, int b) {
   while (a) for (;b;) { if (b) a--; }
 }
 void k(int *t, int n, int i) { int ok = t[i < n ? i : n] == 0 && n > 1; if (ok && (t[i] || n)) return; }
+void gc(void) { for (;; /* c1 */) { break; } while (1 /* c2 */) { break; } do { x(); } while (1 /* c3 */); do { x(); } while (1
+  ); while ( /* c4 */ 1) { break; } for ( /* c5 */ ; ; ) { break; } do /* c6 */ { x(); } while /* c7 */ (1); return /* c8 */ ; }
+int hc(int a, int b) { if (a /* c9 */) { return (a + b) /* c10 */; } else /* c11 */ return b;
+  return ( /* c12 */ a); }
+enum E3 { A3, B3 /* c13 */ };
+enum E4 { A4, B4, /* c14 */ };
+short /* c15 */ int sc; unsigned /* c16 */ uc;
 """
 
 
